@@ -166,37 +166,94 @@ class DBWorld(World):
             return err(sql_error('SqliteFailure', what))
         return None
 
+    # ---- a small generic interpreter: the statement text comes from the MIR, so an edited statement is still executed
+    def _conds(self, text):
+        """'a=? and b=1' -> [(col, '?'|literal)]"""
+        out = []
+        for part in re.split(r'\s+and\s+', text.strip(), flags=re.I):
+            m = re.fullmatch(r'([\w.]+)\s*=\s*(\?|-?\d+|\'[^\']*\')', part.strip())
+            if not m:
+                raise Unsupported('SQL condition not modelled: %r' % part)
+            out.append((m.group(1).split('.')[-1], m.group(2)))
+        return out
+
+    def _lit(self, tok, params):
+        if tok == '?':
+            if not params:
+                raise Unsupported('SQL statement has more placeholders than parameters')
+            return params.pop(0)
+        if tok.startswith("'"):
+            return tuple(tok[1:-1].encode())
+        return int(tok)
+
+    def _eq(self, a, b):
+        if type(a) is LazyVal:
+            a = a.force()
+        if type(b) is LazyVal:
+            b = b.force()
+        if isinstance(a, bool):
+            a = 1 if a else 0
+        if isinstance(b, bool):
+            b = 1 if b else 0
+        if a is None or b is None:
+            return False
+        if isinstance(a, tuple) or isinstance(b, tuple):
+            return isinstance(a, tuple) and isinstance(b, tuple) and tuple(a) == tuple(b)
+        if isinstance(a, int) and isinstance(b, int):
+            return a == b
+        return self.eng.branch(a == b)
+
+    def _rows(self, table):
+        if table == 'Files':
+            return [(rid, r) for rid, r in sorted(self.files.items())]
+        if table == 'Deps':
+            return [(k, dict(d, target=k[0], source=k[1])) for k, d in sorted(self.deps.items())]
+        raise Unsupported('SQL table %r' % table)
+
+    def _match(self, row, conds, vals):
+        for (col, _), v in zip(conds, vals):
+            if col not in row:
+                raise Unsupported('SQL column %r' % col)
+            if not self._eq(row[col], v):
+                return False
+        return True
+
+    def _force_lazy_deps(self, conds, vals):
+        for (col, _), v in zip(conds, vals):
+            if col == 'target':
+                t = v if isinstance(v, int) else self.eng.concrete(v, 'target id')
+                if t in self.deps_lazy:
+                    self.deps_lazy.pop(t)()
+                return
+        for t in list(self.deps_lazy):
+            self.deps_lazy.pop(t)()
+
     def sql_query(self, eng, sql, params, sp):
-        m = re.fullmatch(r'select (.*) from Files where (name|rowid)=\?', sql)
+        params = list(params)
+        m = re.fullmatch(r'select (.*) from Files join Deps on Files.rowid = Deps.source where (.*)', sql)
         if m:
-            key = params[0]
+            conds = self._conds(m.group(2))
+            vals = [self._lit(t, params) for _, t in conds]
+            self._force_lazy_deps(conds, vals)
             out = []
-            for rid, r in self.files.items():
-                if m.group(2) == 'rowid':
-                    k = eng.concrete(key, 'rowid') if not isinstance(key, int) else key
-                    if rid == k:
-                        out.append(self.file_row(rid))
-                else:
-                    if tuple(r['name']) == tuple(key):
-                        out.append(self.file_row(rid))
-            self.ev('sql-select-file', by=m.group(2), found=len(out))
+            for k, d in self._rows('Deps'):
+                if self._match(d, conds, vals) and k[1] in self.files:
+                    fr = self.file_row(k[1])
+                    out.append({'cols': [d['mode'], k[1]] + fr['cols'], 'byname': fr['byname']})
+            self.ev('sql-select-deps', where=m.group(2), n=len(out))
             return ok(out)
-        m = re.fullmatch(r'select Deps.mode, Deps.source, (.*) from Files join Deps on Files.rowid = Deps.source where target=\?', sql)
+        m = re.fullmatch(r'select (.*) from Files(?: where (.*?))?(?: order by (\w+))?', sql)
         if m:
-            t = eng.concrete(params[0], 'target id') if not isinstance(params[0], int) else params[0]
-            if t in self.deps_lazy:
-                th = self.deps_lazy.pop(t)
-                th()
+            conds = self._conds(m.group(2)) if m.group(2) else []
+            vals = [self._lit(t, params) for _, t in conds]
             out = []
-            for (tg, src), d in sorted(self.deps.items()):
-                if tg == t and src in self.files:
-                    fr = self.file_row(src)
-                    out.append({'cols': [d['mode'], src] + fr['cols'], 'byname': fr['byname']})
-            self.ev('sql-select-deps', target=t, n=len(out))
-            return ok(out)
-        m = re.fullmatch(r'select (.*) from Files order by name', sql)
-        if m:
-            out = [self.file_row(rid) for rid, r in sorted(self.files.items(), key=lambda kv: bytes(kv[1]['name']))]
+            rows = self._rows('Files')
+            if m.group(3) == 'name':
+                rows = sorted(rows, key=lambda kv: bytes(kv[1]['name']))
+            for rid, r in rows:
+                if self._match(r, conds, vals):
+                    out.append(self.file_row(rid))
+            self.ev('sql-select-file', where=m.group(2), found=len(out))
             return ok(out)
         raise Unsupported('SQL query not modelled: %r' % sql)
 
@@ -204,60 +261,79 @@ class DBWorld(World):
         f = self.maybe_fail(sql[:40])
         if f is not None:
             return f
-        m = re.fullmatch(r'update Files set is_generated=\?, is_override=\?, checked_runid=\?, changed_runid=\?, failed_runid=\?, '
-                         r'stamp=\?, csum=\? where rowid=\?', sql)
+        params = list(params)
+        m = re.fullmatch(r'update (\w+) set (.*?) where (.*)', sql)
         if m:
-            rid = eng.concrete(params[7], 'rowid') if not isinstance(params[7], int) else params[7]
-            if rid not in self.files:
-                return ok(0)
-            r = self.files[rid]
-            for col, v in zip(FILE_COLS[2:], params[:7]):
-                r[col] = v
-            self.ev('sql-update-file', rowid=rid, row={c: r[c] for c in FILE_COLS[2:]})
-            return ok(1)
-        m = re.fullmatch(r'insert into Files \(name\) values \(\?\)', sql)
-        if m:
-            name = tuple(params[0])
-            for r in self.files.values():
-                if tuple(r['name']) == name:
-                    return err(sql_error('ConstraintViolation'))
-            rid = self.next_rowid
-            self.next_rowid += 1
-            self.add_file(rid, name)
-            self.ev('sql-insert-file', rowid=rid, name=bytes(name).decode('latin-1'))
-            return ok(1)
-        m = re.fullmatch(r'update Deps set delete_me=\? where target=\?', sql)
-        if m:
-            t = eng.concrete(params[1], 'target id') if not isinstance(params[1], int) else params[1]
-            if t in self.deps_lazy:
-                self.deps_lazy.pop(t)()
+            table = m.group(1)
+            sets = []
+            for part in m.group(2).split(','):
+                sm = re.fullmatch(r'\s*(\w+)\s*=\s*(\?|-?\d+)\s*', part)
+                if not sm:
+                    raise Unsupported('SQL set clause %r' % part)
+                sets.append((sm.group(1), self._lit(sm.group(2), params)))
+            conds = self._conds(m.group(3))
+            vals = [self._lit(t, params) for _, t in conds]
+            if table == 'Deps':
+                self._force_lazy_deps(conds, vals)
             n = 0
-            for (tg, src), d in self.deps.items():
-                if tg == t:
-                    d['delete_me'] = params[0]
+            for k, r in self._rows(table):
+                if self._match(r, conds, vals):
+                    tgt = self.files[k] if table == 'Files' else self.deps[k]
+                    for col, v in sets:
+                        tgt[col] = v
                     n += 1
-            self.ev('sql-zap-deps1', target=t, n=n)
+                    if table == 'Files':
+                        self.ev('sql-update-file', rowid=k, row={c: tgt[c] for c in FILE_COLS[2:]})
+            if table == 'Deps':
+                self.ev('sql-update-deps', where=m.group(3), n=n)
             return ok(n)
-        m = re.fullmatch(r'delete from Deps where target=\? and delete_me=1', sql)
+        m = re.fullmatch(r'delete from (\w+) where (.*)', sql)
         if m:
-            t = eng.concrete(params[0], 'target id') if not isinstance(params[0], int) else params[0]
-            if t in self.deps_lazy:
-                self.deps_lazy.pop(t)()
-            dead = [k for k, d in self.deps.items() if k[0] == t and d['delete_me'] == 1]
+            table = m.group(1)
+            conds = self._conds(m.group(2))
+            vals = [self._lit(t, params) for _, t in conds]
+            if table == 'Deps':
+                self._force_lazy_deps(conds, vals)
+            dead = [k for k, r in self._rows(table) if self._match(r, conds, vals)]
             for k in dead:
-                del self.deps[k]
-            self.ev('sql-zap-deps2', target=t, n=len(dead))
+                if table == 'Files':
+                    del self.files[k]
+                else:
+                    del self.deps[k]
+            self.ev('sql-delete', table=table, where=m.group(2), n=len(dead))
             return ok(len(dead))
-        m = re.fullmatch(r'insert or replace into Deps \(target, mode, source, delete_me\) values \(\?,\?,\?,\?\)', sql)
+        m = re.fullmatch(r'insert( or replace)? into (\w+) \((.*?)\) values \((.*?)\)', sql)
         if m:
-            t, mode, src, dm = params
-            t = eng.concrete(t, 'target id') if not isinstance(t, int) else t
-            src = eng.concrete(src, 'source id') if not isinstance(src, int) else src
-            if t in self.deps_lazy:
-                self.deps_lazy.pop(t)()
-            self.deps[(t, src)] = {'mode': tuple(mode), 'delete_me': dm}
-            self.ev('sql-add-dep', target=t, source=src, mode=bytes(mode).decode())
-            return ok(1)
+            table = m.group(2)
+            cols = [c.strip() for c in m.group(3).split(',')]
+            toks = [t.strip() for t in m.group(4).split(',')]
+            if len(cols) != len(toks):
+                raise Unsupported('SQL insert column/value mismatch')
+            rowv = {c: self._lit(t, params) for c, t in zip(cols, toks)}
+            if table == 'Files':
+                name = tuple(rowv['name'])
+                for r in self.files.values():
+                    if tuple(r['name']) == name:
+                        if m.group(1):
+                            raise Unsupported('insert or replace into Files')
+                        return err(sql_error('ConstraintViolation'))
+                rid = self.next_rowid
+                self.next_rowid += 1
+                self.add_file(rid, name, **{c: v for c, v in rowv.items() if c != 'name'})
+                self.ev('sql-insert-file', rowid=rid, name=bytes(name).decode('latin-1'))
+                return ok(1)
+            if table == 'Deps':
+                t, src = rowv['target'], rowv['source']
+                t = eng.concrete(t, 'target id') if not isinstance(t, int) else t
+                src = eng.concrete(src, 'source id') if not isinstance(src, int) else src
+                if t in self.deps_lazy:
+                    self.deps_lazy.pop(t)()
+                if (t, src) in self.deps and not m.group(1):
+                    return err(sql_error('ConstraintViolation'))
+                dm = rowv.get('delete_me')
+                self.deps[(t, src)] = {'mode': tuple(rowv['mode']), 'delete_me': (1 if dm else 0) if isinstance(dm, bool) else dm}
+                self.ev('sql-add-dep', target=t, source=src, mode=bytes(rowv['mode']).decode())
+                return ok(1)
         raise Unsupported('SQL statement not modelled: %r' % sql)
 
 
